@@ -9,6 +9,7 @@ formula decided per path (`path condition => claim`); a `sat` is replayed by run
 SAME harness on numpy float arrays made from the model -- i.e. on the unmodified real code
 with ordinary numbers -- and only a claim that is False there is reported.
 """
+import os
 import time
 import traceback
 
@@ -212,7 +213,7 @@ def _lemmas(terms):
 
 
 def run(hname, fn, timeout_ms=10000, max_paths=4000, region=None, expect_exc=(), engine_timeout_ms=5000,
-        twin=True, describe=None, known_regions=None):
+        twin=True, describe=None, known_regions=None, max_seconds=None):
     """
     Explore fn symbolically, decide every claim on every path, replay counterexamples.
     Returns a list of result dicts (see vlib.core.Check.merge).
@@ -224,8 +225,13 @@ def run(hname, fn, timeout_ms=10000, max_paths=4000, region=None, expect_exc=(),
     t00 = time.time()
     reached = set()
     try:
+        budget = max_seconds or float(os.environ.get('VERIF_HARNESS_SECONDS', '900'))
         for path in eng.explore(lambda: fn(Inputs()), max_paths=max_paths):
             npaths += 1
+            if time.time() - t00 > budget:
+                # wall budget of one harness: the rest of the path space is NOT explored and is reported as such
+                res.append(dict(harness=hname, name=f'paths beyond #{npaths}', status='unknown', detail=f'wall budget of {budget:.0f} s exceeded'))
+                break
             if isinstance(path.exc, pysym.Abort):
                 res.append(dict(harness=hname, name=f'path{npaths}', status='unknown', detail=f'bound exceeded: {path.exc}'))
                 continue
@@ -238,6 +244,8 @@ def run(hname, fn, timeout_ms=10000, max_paths=4000, region=None, expect_exc=(),
                                     + traceback.format_exception(path.exc)[-2][:300]))
                     continue
                 claims = [('no exception', False, repr(path.exc)[:200])]
+                if os.environ.get('VERIF_DEBUG'):
+                    traceback.print_exception(path.exc)
             pending = []
             for item in claims or []:
                 cname, claim = item[0], item[1]
